@@ -61,6 +61,7 @@ type Config struct {
 	PrefillAllKeys      bool     `json:"prefill_all_keys,omitempty"`
 	PrefillVlog         bool     `json:"prefill_vlog,omitempty"`
 	PrefillClustered    bool     `json:"prefill_clustered,omitempty"`
+	PrefillSkew         bool     `json:"prefill_skew,omitempty"` // uneven version counts per key
 	PrefillTTL          int      `json:"prefill_ttl,omitempty"` // every third pre-fill write expires this many seconds after it was written
 	PrefillAgeS         int      `json:"prefill_age_s,omitempty"` // simulated seconds that pass between pre-fill and the explored part (table ages)
 	Prefill             int      `json:"prefill"` // percent of MemTableSize written (through the model) before scheduling starts
